@@ -682,9 +682,11 @@ fn sweep_case(ctx: &mut Ctx, max_edges: usize, directed: bool, twin: bool) {
 // (Model/Tess/SweepCert.lean); it answers `cert ok` when the input is not finite, or
 // the certificate is true - then the theorem (valid for every scalar type, f32 included) PROVES that this run of
 // the model - tied bit for bit to the real tessellator by `sweep:32` - can only panic on the intersection
-// assertion or a NaN sort key.  The certificate covers runs through `recover_from_error` (coherence after the
-// recovery is checked).  A finite input with a false certificate (`cert FAIL`) would be a counterexample to
-// winding conservation or to the coherence after a recovery.
+// assertion or a NaN sort key.  The certificate checks per event exactly the residue that is not proved for all
+// inputs: `scanAgreeB` and winding conservation (`eventOkB`).  Runs through `recover_from_error` are covered by the
+// theorem `Lyon.C01b.recovery_coherent` (the recovery re-establishes the coherence invariant for ALL inputs), so
+// nothing is checked about the recovery any more.  A finite input with a false certificate (`cert FAIL`) would be
+// a counterexample to winding conservation.
 // The real tessellator is run as well: it must not panic.
 fn cert_case(ctx: &mut Ctx) {
     ctx.case("sweepcert:32", |rng| {
